@@ -15,6 +15,7 @@ import (
 	"sync"
 	"time"
 
+	"github.com/google/gopacket/layers"
 	"github.com/omec-project/upf-epc/internal/p4constants"
 	pb "github.com/omec-project/upf-epc/pfcpiface/bess_pb"
 	p4 "github.com/p4lang/p4runtime/go/p4/v1"
@@ -23,6 +24,7 @@ import (
 )
 
 var _ *ie.IE
+var _ layers.IPv4
 var _ message.Message
 
 var _ = p4constants.MeterPreQosPipeSliceTcMeter
@@ -655,3 +657,73 @@ func specReportMsg(e int) *message.SessionReportRequest {
 //@   ensures C13.report.pdr: glen("pfcpout") == old[int](glen("pfcpout"))+1 && old[bool](specIsFirstCorePdr(specSession(pConn, fseid), j)) ==> specReportMsg(gentry("pfcpout", old[int](glen("pfcpout")))).DownlinkDataReport != nil && specIEu16(specIEChild0(specReportMsg(gentry("pfcpout", old[int](glen("pfcpout")))).DownlinkDataReport)) == uint16(old[uint32](at(specSession(pConn, fseid).pdrs, j).pdrID))
 //@   loop 1 invariant C13.report.l1: rangeidx+1 <= len(session.pdrs) && (forall i int :: lo(session.pdrs) <= i && i < lo(session.pdrs)+rangeidx+1 ==> at(session.pdrs, i).srcIface != core)
 //@   loop 2 invariant C13.report.l2: rangeidx+1 <= len(session.fars) && (forall i int :: lo(session.fars) <= i && i < lo(session.fars)+rangeidx+1 ==> !(at(session.fars, i).farID == farID && at(session.fars, i).applyAction&ActionNotify == 0))
+
+// ---------------------------------------------------------------------------
+// C14: end markers go to the old tunnel, once
+// ---------------------------------------------------------------------------
+
+// specPktSer names the serialization that produced the bytes of pkt (a function of the bytes;
+// see the gopacket model in govc). The ghost fields ser.layer<k> give the serialized layer objects.
+func specPktSer(pkt []byte) int { panic("ghost") }
+
+func specEMIP(pkt []byte) *layers.IPv4 {
+	return ptrAt[layers.IPv4](int(gfield("ser.layer1", specPktSer(pkt))))
+}
+
+func specEMUDP(pkt []byte) *layers.UDP {
+	return ptrAt[layers.UDP](int(gfield("ser.layer2", specPktSer(pkt))))
+}
+
+func specEMGTP(pkt []byte) *layers.GTPv1U {
+	return ptrAt[layers.GTPv1U](int(gfield("ser.layer3", specPktSer(pkt))))
+}
+
+// specIsEndMarker: pkt is Ethernet/IPv4/UDP/GTPv1-U End Marker (type 254) from src to dst:2152, TEID teid.
+func specIsEndMarker(pkt []byte, src, dst, teid uint32) bool {
+	return gfield("ser.n", specPktSer(pkt)) == 4 &&
+		len(specEMIP(pkt).SrcIP) == 4 && ip2int(specEMIP(pkt).SrcIP) == src &&
+		len(specEMIP(pkt).DstIP) == 4 && ip2int(specEMIP(pkt).DstIP) == dst &&
+		specEMIP(pkt).Protocol == layers.IPProtocolUDP &&
+		specEMUDP(pkt).SrcPort == 2152 && specEMUDP(pkt).DstPort == 2152 &&
+		specEMGTP(pkt).MessageType == 254 && specEMGTP(pkt).Version == 1 && specEMGTP(pkt).TEID == teid
+}
+
+func specSameSlice(x, y []byte) bool {
+	return sameArray(x, y) && lo(x) == lo(y) && len(x) == len(y)
+}
+
+// specListKept: the first n packets of the list are the packets the list held before.
+func specListPrefixOf(now [][]byte, before [][]byte) bool {
+	return len(before) <= len(now) && forall(func(k int) bool {
+		return implies(0 <= k && k < len(before), specSameSlice(at(now, lo(now)+k), at(before, lo(before)+k)))
+	})
+}
+
+//@ func addEndMarker(farItem far, endMarkerList *[][]byte)
+//@   requires endMarkerList != nil
+//@   freshwrites E:uint8
+//@   ensures C14.em.count: len(*endMarkerList) == old[int](len(*endMarkerList)) || len(*endMarkerList) == old[int](len(*endMarkerList))+1
+//@   ensures C14.em.keep: specListPrefixOf(*endMarkerList, old[[][]byte](*endMarkerList))
+//@   ensures C14.em.packet: len(*endMarkerList) == old[int](len(*endMarkerList))+1 ==> specIsEndMarker(at(*endMarkerList, hi(*endMarkerList)-1), farItem.tunnelIP4Src, farItem.tunnelIP4Dst, farItem.tunnelTEID)
+//@   ensures C14.em.fresh: len(*endMarkerList) == old[int](len(*endMarkerList))+1 ==> !allocated(at(*endMarkerList, hi(*endMarkerList)-1))
+
+func specFarAbsent(s *PFCPSession, id uint32) bool {
+	return forall(func(i int) bool { return implies(lo(s.fars) <= i && i < hi(s.fars), at(s.fars, i).farID != id) })
+}
+
+func specFirstFar(s *PFCPSession, j int, id uint32) bool {
+	return lo(s.fars) <= j && j < hi(s.fars) && at(s.fars, j).farID == id &&
+		forall(func(i int) bool { return implies(lo(s.fars) <= i && i < j, at(s.fars, i).farID != id) })
+}
+
+//@ func (s *PFCPSession) UpdateFAR(f *far, endMarkerList *[][]byte) (err error)
+//@   requires s != nil && f != nil && endMarkerList != nil
+//@   logical j int
+//@   freshwrites E:uint8
+//@   ensures C14.upd.keep: specListPrefixOf(*endMarkerList, old[[][]byte](*endMarkerList))
+//@   ensures C14.upd.notfound: old[bool](specFarAbsent(s, f.farID)) ==> err != nil && len(*endMarkerList) == old[int](len(*endMarkerList))
+//@   ensures C14.upd.found: old[bool](specFirstFar(s, j, f.farID)) ==> err == nil && at(s.fars, j) == *f
+//@   ensures C14.upd.noflag: !f.sendEndMarker ==> len(*endMarkerList) == old[int](len(*endMarkerList))
+//@   ensures C14.upd.count: len(*endMarkerList) == old[int](len(*endMarkerList)) || len(*endMarkerList) == old[int](len(*endMarkerList))+1
+//@   ensures C14.upd.oldtunnel: old[bool](specFirstFar(s, j, f.farID)) && len(*endMarkerList) == old[int](len(*endMarkerList))+1 ==> specIsEndMarker(at(*endMarkerList, hi(*endMarkerList)-1), old[uint32](at(s.fars, j).tunnelIP4Src), old[uint32](at(s.fars, j).tunnelIP4Dst), old[uint32](at(s.fars, j).tunnelTEID)) && !allocated(at(*endMarkerList, hi(*endMarkerList)-1))
+//@   loop 1 invariant C14.upd.l1: rangeidx+1 <= len(s.fars) && (forall i int :: lo(s.fars) <= i && i < lo(s.fars)+rangeidx+1 ==> at(s.fars, i).farID != f.farID)
